@@ -138,9 +138,9 @@ func cachePut(q, solver string) {
 	os.WriteFile(filepath.Join(d, k), []byte(solver), 0o644)
 }
 
-func runSolver(s solverSpec, file string, timeoutS int) SolverResult {
+func runSolverCtx(parent context.Context, s solverSpec, file string, timeoutS int) SolverResult {
 	argv := s.argv(file, timeoutS)
-	ctx, cancel := context.WithTimeout(context.Background(), time.Duration(timeoutS+3)*time.Second)
+	ctx, cancel := context.WithTimeout(parent, time.Duration(timeoutS+3)*time.Second)
 	defer cancel()
 	cmd := exec.CommandContext(ctx, argv[0], argv[1:]...)
 	var out bytes.Buffer
@@ -162,6 +162,8 @@ func runSolver(s solverSpec, file string, timeoutS int) SolverResult {
 		st = "sat"
 	case first == "unknown":
 		st = "unknown"
+	case parent.Err() != nil:
+		st = "cancelled"
 	case first == "timeout" || strings.Contains(first, "timeout") || ctx.Err() != nil:
 		st = "timeout"
 	case strings.Contains(txt, "interrupted by timeout") || strings.Contains(txt, "cvc5 interrupted"):
@@ -171,6 +173,10 @@ func runSolver(s solverSpec, file string, timeoutS int) SolverResult {
 		txt = txt[:6000] + "\n...(truncated)"
 	}
 	return SolverResult{Status: st, Solver: s.name, Secs: secs, Output: txt}
+}
+
+func runSolver(s solverSpec, file string, timeoutS int) SolverResult {
+	return runSolverCtx(context.Background(), s, file, timeoutS)
 }
 
 // solve tries the solvers in order until one answers unsat (discharged) or
@@ -194,33 +200,49 @@ func solve(query string, workDir string, name string, timeoutS int, all bool) (f
 	file := filepath.Join(workDir, name+".smt2")
 	os.WriteFile(file, []byte(query), 0o644)
 	final = SolverResult{Status: "unknown"}
-	for i, s := range solvers {
-		// cvc5 does not accept a few z3 idioms; it is only a fallback.
-		t := timeoutS
-		if i == 0 && !all && timeoutS > 4 {
-			t = timeoutS
-		}
-		r := runSolver(s, file, t)
-		results = append(results, r)
+	// first a short attempt with the fastest solver, then a parallel race of all three
+	if !all {
+		r := runSolver(solvers[0], file, 2)
 		if r.Status == "unsat" {
-			final = r
-			if !all {
-				cachePut(query, s.name)
-				if !keepFiles {
-					os.Remove(file)
-				}
-				return
+			cachePut(query, r.Solver)
+			if !keepFiles {
+				os.Remove(file)
 			}
+			return r, []SolverResult{r}
 		}
-		if r.Status == "sat" && final.Status != "unsat" {
-			final = r
-			if !all {
-				return
-			}
+		if r.Status == "sat" {
+			return r, []SolverResult{r}
 		}
 	}
-	if final.Status == "unsat" && !keepFiles {
-		os.Remove(file)
+	ctx, cancel := context.WithCancel(context.Background())
+	defer cancel()
+	ch := make(chan SolverResult, len(solvers))
+	for _, s := range solvers {
+		go func(s solverSpec) { ch <- runSolverCtx(ctx, s, file, timeoutS) }(s)
+	}
+	for range solvers {
+		r := <-ch
+		if r.Status == "cancelled" {
+			continue
+		}
+		results = append(results, r)
+		if r.Status == "unsat" && final.Status != "unsat" {
+			final = r
+			if !all {
+				cancel()
+			}
+		}
+		if r.Status == "sat" && final.Status != "unsat" && final.Status != "sat" {
+			final = r
+		}
+	}
+	if final.Status == "unsat" {
+		if !all {
+			cachePut(query, final.Solver)
+		}
+		if !keepFiles {
+			os.Remove(file)
+		}
 	}
 	return
 }
